@@ -87,6 +87,10 @@ MultiItems == [pos : LinkPositions, where : {"link", "see"}, target : MultiTarge
 Forms == {"unknown_tag", "at_alone", "missing_brace", "inline_param", "block_link", "param_no_id", "see_no_target", "stray_symbol",
           "link_no_target", "returns_stray", "see_with_message", "double_colon_end", "unknown_inline"}
 MalPositions == {"struct", "field", "op", "enumerator"}
+\* "never cost the documented element or its siblings": these elements (a sibling field after x, a sibling enumerator after A,
+\* the last definition of the file) carry a well-formed comment 'Kept {@link S}.' which must survive - text, link and all -
+\* wherever the malformed comment stands (before them in the same file)
+Neighbours == <<"M::S::y", "M::E::B", "M::T">>
 
 ----------------------------------------------------------------------------------------------------
 VARIABLES c
@@ -114,7 +118,7 @@ Emit ==
     CASE c.fam = "dedent" -> [fam |-> "dedent", pos |-> c.pos, lines |-> c.lines, exp |-> RefMessage(c.lines)]
       [] c.fam = "tags" -> [fam |-> "tags", pos |-> c.pos, intro |-> c.intro, conts |-> Conts, ltargets |-> LinkTargets, tags |-> c.tags, exp |-> ExpTags(c.tags, c.pos)]
       [] c.fam = "links" -> [fam |-> "links", items |-> c.items, exp |-> [i \in 1..Len(c.items) |-> ExpLink(c.items[i])]]
-      [] c.fam = "malformed" -> [fam |-> "malformed", pos |-> c.pos, form |-> c.form])>>)
+      [] c.fam = "malformed" -> [fam |-> "malformed", pos |-> c.pos, form |-> c.form, kept |-> Neighbours])>>)
 AllPos == Positions \cup TagPositions
 AllIndents == Indents
 AllKinds == Kinds
